@@ -27,6 +27,7 @@ func TestC16_SignedLengthBoundaries(t *testing.T) {
 		}
 	}, func(s sdSpec, r *h.Rec) error {
 		r.Label("length-boundary")
+		r.NT()
 		return checkSignedComplete(s, r, false)
 	})
 }
@@ -59,6 +60,7 @@ func TestC16_EnvelopeLengthBoundaries(t *testing.T) {
 		}
 	}, func(c envCase, r *h.Rec) error {
 		r.Label("length-boundary")
+		r.NT()
 		return checkEnvelope(c, r)
 	})
 }
